@@ -369,6 +369,10 @@ func (p *Proxy) handleConnectRequest(ctx *Context, req *http.Request, session *S
 			}
 			brw.Writer.Reset(nconn)
 			brw.Reader.Reset(nconn)
+			// The session now lives on the decrypted connection: this is what a
+			// hijacker must be handed from here on, not the raw connection
+			// carrying the TLS records.
+			session.setConn(nconn, brw)
 			return p.handle(ctx, nconn, brw)
 		}
 
